@@ -104,7 +104,11 @@ var booleanFlags = map[string]bool{
 }
 
 var flagSet = flag.NewFlagSet("garble", flag.ExitOnError)
-var rxGarbleFlag = regexp.MustCompile(`-(?:literals|tiny|debug|debugdir|seed)(?:$|=)`)
+
+// rxGarbleFlag matches one of garble's own flags, in any of the spellings the flag
+// package accepts. It is anchored so that it does not match inside another flag or
+// inside a flag's value, such as "-o out-tiny" or "-tags=x-debug".
+var rxGarbleFlag = regexp.MustCompile(`^--?(?:literals|tiny|debug|debugdir|seed)(?:$|=)`)
 
 var (
 	flagLiterals bool
